@@ -305,7 +305,6 @@ func runC08(c *Ctx) {
 		h := w.Func("server", "", "handleChannelBindRequest")
 		acb := w.Func("allocation", "Allocation", "AddChannelBind")
 		base := w.Func("server", "", "buildAndSendErr")
-		buildMsg := w.Func("server", "", "buildMsg")
 		c.Anchor("C08.3", "400")
 		ok := false
 		w.eachInstr(h, func(in ssa.Instruction) {
@@ -324,8 +323,7 @@ func runC08(c *Ctx) {
 			if !onErr {
 				return
 			}
-			bm, _ := callOf(call.Call.Args[3])
-			if bm != nil && bm.Call.StaticCallee() == buildMsg && errorCodeIs(w, bm, stunConst(w, "CodeBadRequest")) {
+			if w.msgHasErrorCode(call.Call.Args[3], stunConst(w, "CodeBadRequest"), 0) {
 				ok = true
 			}
 		})
